@@ -26,6 +26,13 @@ const RDB_MAGIC: &[u8] = b"REDIS";
 /// drops it and reads the elements after it as a plain list.
 const LIST_ESCAPE: &[u8] = b"__FERROUS_LIST_ESCAPE__";
 
+/// Pseudo entry that carries a stream's last ID (the greatest ID ever added, which deletions and
+/// trimming leave alone). It is written right after the stream marker in the shape of an entry -
+/// this string where the entry ID would be, the pair count `1`, the last ID as the field name and
+/// an empty value - so that a loader which does not know it reads one entry with an unparsable
+/// ID and skips it. Dumps written without it load as before (last ID = greatest present ID).
+const STREAM_LAST_ID: &[u8] = b"__FERROUS_STREAM_LAST_ID__";
+
 /// Does a genuine list need the escape element in front of its first element?
 fn list_needs_escape(list: &std::collections::VecDeque<Vec<u8>>) -> bool {
     list.front().map_or(false, |first| {
@@ -340,7 +347,7 @@ impl RdbEngine {
                             
                             let entries = &range_result.entries;
                             // Calculate correct total items: 1 marker + sum(2 + 2*field_count) for each entry
-                            let mut total_items = 1; // Stream marker
+                            let mut total_items = 1 + 4; // Stream marker + last-ID pseudo entry
                             for entry in entries {
                                 total_items += 2; // ID string + field count string
                                 total_items += entry.fields.len() * 2; // field-value pairs
@@ -351,6 +358,13 @@ impl RdbEngine {
                             let marker = b"__FERROUS_STREAM_MARKER__";
                             self.write_length(&mut buffer, marker.len())?;
                             buffer.extend_from_slice(marker);
+                            
+                            // Write the last ID (see STREAM_LAST_ID)
+                            let last_id_str = stream.last_id().to_string();
+                            for item in [STREAM_LAST_ID, b"1".as_slice(), last_id_str.as_bytes(), b"".as_slice()] {
+                                self.write_length(&mut buffer, item.len())?;
+                                buffer.extend_from_slice(item);
+                            }
                             
                             // Write each entry
                             for entry in entries {
@@ -616,7 +630,7 @@ impl<W: Write> RdbWriter<W> {
                 
                 let entries = &range_result.entries;
                 // Calculate total number of items to write
-                let mut total_items = 1; // +1 for the stream marker
+                let mut total_items = 1 + 4; // the stream marker + the last-ID pseudo entry
                 for entry in entries {
                     total_items += 2; // ID string + field count string
                     total_items += entry.fields.len() * 2; // field-value pairs
@@ -625,6 +639,12 @@ impl<W: Write> RdbWriter<W> {
                 
                 // Write stream marker to identify this as a stream during load
                 self.write_string(b"__FERROUS_STREAM_MARKER__")?;
+                
+                // Write the last ID (see STREAM_LAST_ID)
+                self.write_string(STREAM_LAST_ID)?;
+                self.write_string(b"1")?;
+                self.write_string(stream.last_id().to_string().as_bytes())?;
+                self.write_string(b"")?;
                 
                 // Write each stream entry as: ID string, field count, field-value pairs
                 for entry in entries {
@@ -939,6 +959,7 @@ impl<R: Read> RdbReader<R> {
                         // This is a stream - reconstruct it
                         let remaining_count = count - 1;
                         let mut entry_idx = 0;
+                        let mut saved_last_id: Option<crate::storage::stream::StreamId> = None;
                         
                         if remaining_count == 0 {
                             // An empty stream (every entry deleted) is written as the marker alone:
@@ -981,6 +1002,14 @@ impl<R: Read> RdbReader<R> {
                                 entry_idx += 2;
                             }
                             
+                            // The pseudo entry that carries the stream's last ID (see STREAM_LAST_ID)
+                            if id_str == STREAM_LAST_ID {
+                                saved_last_id = fields.iter().next().and_then(|(field, _)| {
+                                    crate::storage::stream::StreamId::from_string(std::str::from_utf8(field).unwrap_or(""))
+                                });
+                                continue;
+                            }
+                            
                             // Parse stream ID and add entry to stream
                             if let Some(stream_id) = crate::storage::stream::StreamId::from_string(
                                 std::str::from_utf8(&id_str).unwrap_or("")
@@ -989,6 +1018,11 @@ impl<R: Read> RdbReader<R> {
                                     *building = Some(key.clone());
                                 }
                             }
+                        }
+                        
+                        // Restore the last ID (creates the key when every entry had been removed)
+                        if let Some(last_id) = saved_last_id {
+                            storage.xrestore_last_id(db, key.clone(), last_id)?;
                         }
                         
                         if let Some(deadline_ms) = deadline_ms {
